@@ -232,8 +232,12 @@ def _run_history(case):
     stored = 4 if h["op"] != "in" else [4]
     try:
         for i, (v, fl) in enumerate(zip(h["values"], h["flags"])):
-            old = time.time() - 5000 - 100 * (3 - i)
-            os.utime(os.path.join(d, "test_something.py"), (old, old))
+            # the clock of the history: a file written "now" (by the harness or by a rewrite) is given its own distinct past date, a file
+            # that still carries the date of an earlier step is left alone (the cache key of pytest / Python is (mtime, size))
+            fn = os.path.join(d, "test_something.py")
+            if os.stat(fn).st_mtime > time.time() - 1000:
+                old = time.time() - 50000 + 1000 * i
+                os.utime(fn, (old, old))
             r = plugin.session(d, ["--inline-snapshot=" + ",".join(fl)] if fl else [], env={"VALUE": str(v)}, bytecode=True)
             text = plugin.listing(d, text=True)["test_something.py"]
             bad = (v not in stored) if h["op"] == "in" else not H_OPS[h["op"]][1](v, stored)
